@@ -100,7 +100,30 @@ def part_body_operations(ctx, part):
                 {"program": src}))
 
 
-PARTS = [c09.part_tyops_corr, c14.part_sorters, part_e2e, part_body_operations]
+def part_keyword_prefix_names(ctx, part):
+    """keyword parameters whose names are a prefix of one another plus a digit (k / k2, v1 / v10)"""
+    r = ctx.rng("kwnames")
+    for i in range(ctx.n(12, 80)):
+        a, b = r.choice([("k", "k2"), ("v1", "v10"), ("a", "a1"), ("val", "val2")])
+        t = r.sample(methgen.VALS, 4)
+        order1, order2 = [(a, t[0]), (b, t[1])], [(b, t[2]), (a, t[3])]
+        if r.random() < 0.5:
+            order1.reverse()
+        src = ("def kwp(%s:, %s:)\n  dbtp %s\n  dbtp %s\n  1\nend\nkwp(%s)\nkwp(%s)\n" % (
+            a, b, a, b, ", ".join("%s: %s" % (k, v[0]) for k, v in order1), ", ".join("%s: %s" % (k, v[0]) for k, v in order2)))
+        x, got = run(src)
+        part.evaluations += 1
+        part.nontrivial.add(src)
+        want_a, want_b = frozenset([t[0][1], t[3][1]]), frozenset([t[1][1], t[2][1]])
+        ga, gb = methgen.parse((got.get(2) or [None])[0]), methgen.parse((got.get(3) or [None])[0])
+        if ga == want_a and gb == want_b:
+            part.agreed += 1
+        else:
+            part.failures.append(Failure("wrong_inferred_type", "keyword parameters %s / %s: the call sites give %s / %s, ti reports %s / %s" % (
+                a, b, sorted(want_a), sorted(want_b), (got.get(2) or [None])[0], (got.get(3) or [None])[0]), {"program": src}))
+
+
+PARTS = [c09.part_tyops_corr, c14.part_sorters, part_e2e, part_keyword_prefix_names, part_body_operations]
 
 ROUND_WITNESS = "def early_caller\n  um1(1, 1.5, \"s\")\n  1\nend\ndef um1(p0, p1, p2)\n  dbtp p2\n  p0\nend\num1(:a, :a, 1)\nearly_caller()\n"
 
